@@ -138,6 +138,7 @@ func canonErr(e grammar.VerifError) string {
 
 // realParse: answer line of `parse <max> <hex>`
 func realParse(max uint64, input []byte) (ans string) {
+	defer enter(fmt.Sprintf("parse %d %s", max, hx(string(input))), "C10", "C11", "C15", "C16", "C20", "C06", "C07", "C01", "C03", "C04")()
 	defer func() {
 		if r := recover(); r != nil {
 			ans = "PANIC"
@@ -173,6 +174,7 @@ func realParse(max uint64, input []byte) (ans string) {
 
 // realParseMsg: answer line of `parsemsg <max> <hex>` — the exact err.Error() of grammar.Parse
 func realParseMsg(max uint64, input []byte) (ans string) {
+	defer enter(fmt.Sprintf("parsemsg %d %s", max, hx(string(input))), "C10", "C11", "C15")()
 	defer func() {
 		if r := recover(); r != nil {
 			ans = "PANIC"
@@ -285,6 +287,7 @@ func reTable(ast grammar.Expression, data ...interface{}) string {
 // ---------------------------------------------------------------- evaluate / filter / dump
 
 func create(expr string, opts []OptSpec) (ev *bexpr.Evaluator, ans string) {
+	defer enter("parse 0 "+hx(expr), "C10", "C11", "C15", "C16", "C20", "C06", "C07", "C01", "C03", "C04", "C09", "C18")()
 	defer func() {
 		if r := recover(); r != nil {
 			ev, ans = nil, "CP"
@@ -317,6 +320,7 @@ func outcome(b bool, err error) string {
 }
 
 func safeEvaluate(ev *bexpr.Evaluator, datum interface{}) (ans string) {
+	defer enter("eval ( opts ) "+hx(ev.Expression())+" <datum> ( re )", "C09", "C01", "C06", "C12", "C13", "C14")()
 	defer func() {
 		if r := recover(); r != nil {
 			ans = "P"
@@ -350,6 +354,7 @@ func canonResult(x interface{}) string {
 }
 
 func filterCase(expr string, data interface{}) (req, ans string) {
+	defer enter("filter "+hx(expr)+" <data> ( re )", "C17", "C10", "C09", "C13", "C14", "C08")()
 	var f *bexpr.Filter
 	var err error
 	cans := ""
@@ -400,6 +405,7 @@ func filterCase(expr string, data interface{}) (req, ans string) {
 }
 
 func dumpCase(expr, indent string, level int) (req, ans string) {
+	defer enter("dump "+hx(expr), "C19", "C10")()
 	req = fmt.Sprintf("dump %s %s %d", hx(expr), hx(indent), level)
 	ev, cans := create(expr, nil)
 	if ev == nil {
